@@ -1,3 +1,4 @@
+import BoolFn.Proofs.BddOps
 import BoolFn.Proofs.TableOps
 import BoolFn.Proofs.Inner
 import BoolFn.Bdd
@@ -69,6 +70,26 @@ theorem bdd_same_inputs (op : Bool → Bool → Bool) (a b : Bdd α) (ha : a.WF)
   intro ρ
   simp only [Bdd.den]
   rw [Inner.eval_binop _ _ _ _ (by simp [ha.2.1]), heq]
+end
+
+section
+variable [DecidableEq α] [Ord α] [Std.TransOrd α] [Std.LawfulEqOrd α]
+/-- **diagrams, any two input sets**: lifting both operands with `extend_bdd_variables` never panics,
+    the result is well-formed over the union of the inputs and pointwise -/
+theorem bdd_and (a b : Bdd α) (ha : a.WF) (hb : b.WF) :
+    ∃ c, Bdd.mkAnd a b = .ok c ∧ c.WF ∧ (∀ x, x ∈ c.inputs ↔ x ∈ a.inputs ∨ x ∈ b.inputs) ∧
+      ∀ ρ, c.den ρ = (a.den ρ && b.den ρ) := Bdd.bitCommon_den _ a b ha hb
+theorem bdd_or (a b : Bdd α) (ha : a.WF) (hb : b.WF) :
+    ∃ c, Bdd.mkOr a b = .ok c ∧ c.WF ∧ (∀ x, x ∈ c.inputs ↔ x ∈ a.inputs ∨ x ∈ b.inputs) ∧
+      ∀ ρ, c.den ρ = (a.den ρ || b.den ρ) := Bdd.bitCommon_den _ a b ha hb
+theorem bdd_xor (a b : Bdd α) (ha : a.WF) (hb : b.WF) :
+    ∃ c, Bdd.mkXor a b = .ok c ∧ c.WF ∧ (∀ x, x ∈ c.inputs ↔ x ∈ a.inputs ∨ x ∈ b.inputs) ∧
+      ∀ ρ, c.den ρ = (a.den ρ != b.den ρ) := Bdd.bitCommon_den _ a b ha hb
+/-- the lemma that discharges the preconditions of the unsafe lib-bdd calls -/
+theorem extend_keeps_function (b : Bdd α) (new : List α) (hb : b.WF) (hnew : StrictSorted new)
+    (hsub : ∀ x ∈ b.inputs, x ∈ new) :
+    ∃ b', Bdd.extend b new = .ok b' ∧ b'.WF ∧ b'.inputs = new ∧ ∀ ρ, b'.den ρ = b.den ρ :=
+  extend_den b new hb hnew hsub
 end
 
 /-- non-vacuity: operands with partly overlapping variables -/
